@@ -236,6 +236,15 @@ def props_of(conj, sig, group):
     kind = sig.get('kind', '-')
     op = sig.get('op', '-')
     ps = set()
+    if kind == 'awalk':
+        ps.add('C15')
+        if conj == 'nopanic':
+            ps.add('C13')
+        return ps
+    if kind in ('amem', 'aphys', 'aalt', 'aovl'):
+        # the async twins are judged by the same Level A: a disagreement is (also) a C15 violation
+        base = dict(sig, kind=kind[1:])
+        return (props_of(conj, base, group) - {'C02'}) | {'C15'}
     if sig.get('fault'):
         ps.add('C20')
         if conj == 'nopanic':
@@ -265,6 +274,8 @@ def props_of(conj, sig, group):
         return ps
     if kind == 'handles':
         ps.add('C14')
+        if str(sig.get('cfg', '')).startswith('async:'):
+            ps.add('C15')
         if conj == 'nopanic':
             ps.add('C13')
         if conj == 'published' or op in ('write', 'flush', 'close_w', 'seek_w', 'open_append', 'open_create'):
